@@ -25,6 +25,9 @@ def wf_defs():
         "chain": [("A", ["src"], ["a"]), ("B", ["a"], ["b"]), ("C", ["b"], ["c"])],
         "diamond": [("A", ["src"], {"o": "a"}), ("B", ["a"], ["b"]), ("C", ["a", "src2"], ["c"]), ("D", [["b"], ["c"]], ["d"]), ("E", ["a"], [])],
         "twocomp": [("A", ["src"], ["a"]), ("B", ["a"], ["b"]), ("X", ["src2"], ["x"])],
+        # X depends on B and C, and B depends on C (a shortcut edge): a traversal that is not strictly dependencies-first shows here
+        "shortcut": [("C", ["src"], ["c"]), ("B", ["c"], ["b"]), ("X", ["b", "c"], ["x"])],
+        "shortcut2": [("Index", ["src"], ["index"]), ("Align", ["src", "index"], ["aligned"]), ("Report", ["aligned", "index"], ["report"]), ("Zlast", ["report", "index"], ["z"])],
     }
 
 
@@ -185,7 +188,7 @@ def run(ctx):
     quick = ctx.tier == "quick"
     ctx.pmap(me, "cli_batch", [(w, h) for w in wf_defs() for h in (False, True)], chunk=1, ranks=2 if quick else 3)
     oitems = []
-    for wname in ("diamond", "fork", "twocomp"):
+    for wname in ("diamond", "fork", "twocomp", "shortcut", "shortcut2"):
         defs = wf_defs()[wname]
         nouts = len({o for n, i, o_ in defs for o in W.T(n, [], o_).flat("outputs")})
         for state in itertools.product([None, 1, 3], repeat=nouts):
